@@ -357,6 +357,17 @@ def run_batch(prop_name, tier, verif_seed, n_runs, wall_budget_s, workers=None, 
                 break
             submit_next()
 
+    # determinism spot check: the first few run seeds are executed a second time (other process,
+    # other position in the batch); a digest mismatch is a harness error, never a verdict
+    recheck = [i for i in range(min(8, n_runs)) if i in digests]
+    n_redo_bad = 0
+    for i in recheck:
+        r2 = run_index(prop, verif_seed, i)
+        if r2.digest != digests[i]:
+            n_redo_bad += 1
+            errors.append('run %d is not deterministic: digest %s then %s' % (i, digests[i], r2.digest))
+    stats['determinism_rechecks'] = len(recheck)
+
     # batch-level progress rule (bounded liveness: well-formed, fault-free work must get done)
     if progress_rule and hasattr(prop, 'progress_violation'):
         pv = prop.progress_violation(stats)
